@@ -93,6 +93,10 @@ def h_hooks(sx):
         if n.startswith("before_"):
             after = "after_" + n[len("before_"):]
             sx.check((after, a) in L2[i + 1:], "C12.after-hook-paired", detail=lambda m, n=n, a=a: dict(det(m), unpaired=[n, a]))
+        elif n.startswith("after_"):
+            # ... and no after-hook runs for something whose before-hook was never called (a teardown without its set-up)
+            before = "before_" + n[len("after_"):]
+            sx.check((before, a) in L2[:i], "C12.after-hook-paired", detail=lambda m, n=n, a=a: dict(det(m), after_without_before=[n, a]))
     if len(w2.fault_fired) > 1:
         return obs
     k, fname, farg = w2.fault_fired[0][:3]
